@@ -33,6 +33,7 @@ EXTENDS Integers, FiniteSets, Sequences, TLC
 CONSTANTS
   Proc,       \* process slots
   Seed,       \* PYTHONHASHSEED values a process can be spawned with
+  Conf,       \* option files a process can find ($PWD/ffcx_options.json, $XDG_CONFIG_HOME/ffcx/...)
   Sig,        \* UFL signatures (abstract)
   Route,      \* Nat: throw-away objects made before each object of the form (same form, other ids)
   Opt,        \* option sets
@@ -43,11 +44,14 @@ CONSTANTS
   Record,     \* TRUE: keep the history variable hist (used to *generate* histories)
   Leak,       \* "none" = intended design | "seed" | "counter" | "cache"   (negative controls)
   Lossy,      \* FALSE = intended design; TRUE: names are computed from Vis alone
-  DropPos     \* FALSE = intended design; TRUE: object names ignore the position in the request
+  DropPos,    \* FALSE = intended design; TRUE: object names ignore the position in the request
+  IgnoreConf  \* FALSE = intended design; TRUE: names are computed from the options of the call alone
 
 VARIABLES
   alive,    \* [Proc -> BOOLEAN]
   seed,     \* [Proc -> Seed]                  hidden: string-hash seed
+  conf,     \* [Proc -> Conf]                  the option files the process finds: an *input* - the options a
+            \*                                 request is compiled with are those of the call merged over these
   base,     \* [Proc -> BOOLEAN]               hidden: the mesh + space that junk objects hang on exist
   cnt,      \* [Proc -> [mesh, coefficient, constant : Nat]]  hidden: UFL's global counters
   done,     \* [Proc -> Nat]                   hidden: compilations performed so far (caches are warm)
@@ -57,8 +61,8 @@ VARIABLES
   rejObjs, rejIdent,                  \* module names whose object names clash / are not identifiers
   hist      \* history variable: the events so far (hidden by VIEW in exhaustive design runs)
 
-vars == <<alive, seed, base, cnt, done, nev, text, name, klass, rejText, rejName, rejKlass, rejObjs, rejIdent, hist>>
-view == <<alive, seed, base, cnt, done, nev, text, name, klass, rejText, rejName, rejKlass, rejObjs, rejIdent>>
+vars == <<alive, seed, conf, base, cnt, done, nev, text, name, klass, rejText, rejName, rejKlass, rejObjs, rejIdent, hist>>
+view == <<alive, seed, conf, base, cnt, done, nev, text, name, klass, rejText, rejName, rejKlass, rejObjs, rejIdent>>
 
 Kind == {"mesh", "space", "coefficient", "constant", "argument", "form"}
 Cnt0 == [mesh |-> 0, coefficient |-> 0, constant |-> 0]
@@ -82,6 +86,7 @@ ValidIdent(cs) == Len(cs) > 0 /\ IsIdStart(cs[1]) /\ \A i \in 1..Len(cs) : IsIdC
 ---------------------------------------------------------------------------
 Init ==
   /\ alive = [p \in Proc |-> FALSE] /\ seed = [p \in Proc |-> CHOOSE s \in Seed : TRUE]
+  /\ conf = [p \in Proc |-> CHOOSE c \in Conf : TRUE]
   /\ base = [p \in Proc |-> FALSE] /\ cnt = [p \in Proc |-> Cnt0] /\ done = [p \in Proc |-> 0]
   /\ nev = 0
   /\ text = Empty /\ name = Empty /\ klass = Empty
@@ -93,16 +98,16 @@ Log(e) == /\ nev < MaxEvents /\ nev' = nev + 1
 
 NoReg == UNCHANGED <<text, name, klass, rejText, rejName, rejKlass, rejObjs, rejIdent>>
 
-(* a fresh interpreter: PYTHONHASHSEED = s, all counters zero, nothing cached *)
-Spawn(p, s) ==
-  /\ ~alive[p] /\ s \in Seed
-  /\ alive' = [alive EXCEPT ![p] = TRUE] /\ seed' = [seed EXCEPT ![p] = s]
+(* a fresh interpreter: PYTHONHASHSEED = s, option files c, all counters zero, nothing cached *)
+Spawn(p, s, c) ==
+  /\ ~alive[p] /\ s \in Seed /\ c \in Conf
+  /\ alive' = [alive EXCEPT ![p] = TRUE] /\ seed' = [seed EXCEPT ![p] = s] /\ conf' = [conf EXCEPT ![p] = c]
   /\ base' = [base EXCEPT ![p] = FALSE] /\ cnt' = [cnt EXCEPT ![p] = Cnt0] /\ done' = [done EXCEPT ![p] = 0]
-  /\ Log([act |-> "Spawn", proc |-> p, seed |-> s]) /\ NoReg
+  /\ Log([act |-> "Spawn", proc |-> p, seed |-> s, conf |-> c]) /\ NoReg
 
 Exit(p) ==
   /\ alive[p] /\ alive' = [alive EXCEPT ![p] = FALSE]
-  /\ Log([act |-> "Exit", proc |-> p]) /\ NoReg /\ UNCHANGED <<seed, base, cnt, done>>
+  /\ Log([act |-> "Exit", proc |-> p]) /\ NoReg /\ UNCHANGED <<seed, conf, base, cnt, done>>
 
 (* an object that has nothing to do with what is compiled later.  A mesh is its own object; *)
 (* the other kinds hang on one per-process junk mesh/space made on first use.               *)
@@ -119,7 +124,7 @@ CreateJunk(p, kind, made) ==
   /\ cnt' = [cnt EXCEPT ![p] = Plus(Plus(@, JunkDelta(p, kind)), made)]
   /\ base' = [base EXCEPT ![p] = @ \/ kind # "mesh"]
   /\ done' = [done EXCEPT ![p] = IF kind = "form" THEN @ + 1 ELSE @]
-  /\ Log([act |-> "CreateJunk", proc |-> p, kind |-> kind]) /\ NoReg /\ UNCHANGED <<alive, seed>>
+  /\ Log([act |-> "CreateJunk", proc |-> p, kind |-> kind]) /\ NoReg /\ UNCHANGED <<alive, seed, conf>>
 
 (* compile_ufl_objects on objects with signature key k produced text x, creating `made` objects *)
 Generate(p, k, x, made, ev) ==
@@ -127,7 +132,7 @@ Generate(p, k, x, made, ev) ==
   /\ text' = Write(text, k, x) /\ rejText' = rejText \cup Rejected(text, k, x)
   /\ cnt' = [cnt EXCEPT ![p] = Plus(@, made)] /\ done' = [done EXCEPT ![p] = @ + 1]
   /\ Log(ev)
-  /\ UNCHANGED <<alive, seed, base, name, klass, rejName, rejKlass, rejObjs, rejIdent>>
+  /\ UNCHANGED <<alive, seed, conf, base, name, klass, rejName, rejKlass, rejObjs, rejIdent>>
 
 (* the JIT computed module name m and object names objs for request rk.  defs: every name the *)
 (* module defines at file scope (at least objs), idc: their code points.  If hasc, the        *)
@@ -142,7 +147,7 @@ Name(p, rk, m, objs, defs, idc, hasc, c, made, ev) ==
   /\ cnt' = [cnt EXCEPT ![p] = Plus(@, made)]
   /\ done' = [done EXCEPT ![p] = IF hasc THEN @ + 1 ELSE @]
   /\ Log(ev)
-  /\ UNCHANGED <<alive, seed, base, text, rejText>>
+  /\ UNCHANGED <<alive, seed, conf, base, text, rejText>>
 
 ---------------------------------------------------------------------------
 (* The design: what the produced values are allowed to depend on. *)
@@ -157,24 +162,26 @@ Hidden(p) == CASE Leak = "seed"    -> <<seed[p]>>
                [] Leak = "cache"   -> <<done[p] > 0>>
                [] OTHER            -> <<>>
 
-TextOf(p, s, o) == <<s, o, Hidden(p)>>
+\* the options a request is compiled with: those of the call merged over the process' option files
+Eff(p, o)       == <<conf[p], o>>
+TextOf(p, s, o) == <<s, Eff(p, o), Hidden(p)>>
 Points(r)       == IF Lossy THEN <<r.vis>> ELSE <<r.vis, r.hid>>
-ModNameOf(p, r) == <<r.sig, r.n, Points(r), r.opt, r.flag, Hidden(p)>>
+ModNameOf(p, r) == <<r.sig, r.n, Points(r), IF IgnoreConf THEN <<r.opt>> ELSE Eff(p, r.opt), r.flag, Hidden(p)>>
 ObjNamesOf(p, r) == [i \in 1..r.n |-> <<ModNameOf(p, r), IF DropPos THEN 0 ELSE i>>]
 \* what is built for the request: the text generated for its content, and how it is compiled
-ClassOf(r)      == <<r.sig, r.n, r.vis, r.hid, r.opt, r.flag>>
-ReqKey(r)       == <<r.sig, r.n, r.vis, r.hid, r.opt, r.flag>>
+ClassOf(p, r)   == <<r.sig, r.n, r.vis, r.hid, Eff(p, r.opt), r.flag>>
+ReqKey(p, r)    == <<r.sig, r.n, r.vis, r.hid, Eff(p, r.opt), r.flag>>
 
 Next ==
   \E p \in Proc :
-    \/ \E s \in Seed : Spawn(p, s)
+    \/ \E s \in Seed, c \in Conf : Spawn(p, s, c)
     \/ Exit(p)
     \/ \E kind \in Kind : CreateJunk(p, kind, IF kind = "form" THEN [Cnt0 EXCEPT !.coefficient = 1, !.constant = 1] ELSE Cnt0)
     \/ \E t \in Template, o \in Opt :
-         Generate(p, <<t.sig, o>>, TextOf(p, t.sig, o), MadeBy(t.route),
+         Generate(p, <<t.sig, Eff(p, o)>>, TextOf(p, t.sig, o), MadeBy(t.route),
                   [act |-> "Generate", proc |-> p, sig |-> t.sig, route |-> t.route, opt |-> o])
     \/ \E r \in Req :
-         Name(p, ReqKey(r), ModNameOf(p, r), ObjNamesOf(p, r), ObjNamesOf(p, r), <<>>, TRUE, ClassOf(r),
+         Name(p, ReqKey(p, r), ModNameOf(p, r), ObjNamesOf(p, r), ObjNamesOf(p, r), <<>>, TRUE, ClassOf(p, r),
               MadeBy(r.route),
               [act |-> "Name", proc |-> p, req |-> r])
 
@@ -184,7 +191,7 @@ Spec == Init /\ [][Next]_vars
 (* Properties *)
 
 TypeOK ==
-  /\ \A p \in Proc : alive[p] \in BOOLEAN /\ seed[p] \in Seed /\ base[p] \in BOOLEAN /\ done[p] \in Nat
+  /\ \A p \in Proc : alive[p] \in BOOLEAN /\ seed[p] \in Seed /\ conf[p] \in Conf /\ base[p] \in BOOLEAN /\ done[p] \in Nat
                      /\ cnt[p].mesh \in Nat /\ cnt[p].coefficient \in Nat /\ cnt[p].constant \in Nat
   /\ nev \in 0..MaxEvents
 
